@@ -31,7 +31,7 @@ Proof. intros H. apply is_name_enum_pass; [exact gen_form_names_one_to_one | exa
 
 Lemma unit_ref_form_codes f : is_unit_ref_form (dn_form f) = is_unit_ref f || (f =? 2).
 Proof.
-  unfold is_unit_ref_form, is_unit_ref.
+  unfold is_unit_ref_form, is_unit_ref, gen_die_ref_unit_forms. cbn [existsb].
   rewrite (form_is f 0x11 "DW_FORM_ref1" eq_refl), (form_is f 0x12 "DW_FORM_ref2" eq_refl),
           (form_is f 0x13 "DW_FORM_ref4" eq_refl), (form_is f 0x14 "DW_FORM_ref8" eq_refl),
           (form_is f 2 "DW_FORM_ref" eq_refl), (form_is f 0x15 "DW_FORM_ref_udata" eq_refl).
